@@ -147,6 +147,8 @@ def build_field(f):
         kw["on_error"] = f["on_error"]
     if f.get("deps"):
         kw["dependencies"] = list(f["deps"])
+    if f.get("alias_from"):
+        kw["alias_from"] = list(f["alias_from"])
     kw.update(f.get("fcons") or {})       # constraints declared on the field: validators of the wrapping Rule
     return Field(**kw)
 
@@ -558,9 +560,13 @@ def impl(case):
         elif var is not None:
             r = run_decl(api, [], o, optmode, MODES[0], [], (v,), var, kwty)
             alone.append([f"*args:{j}", "ok" not in r])
-    for it in dict.fromkeys([f["name"] for f in decl if f["name"] not in given] + [k for k, _ in data]):
+    accepted = {f["name"]: {f["name"], *(f.get("alias_from") or [])} for f in decl}
+    owner = {k: n for n, ks in accepted.items() for k in ks}
+    for it in dict.fromkeys([f["name"] for f in decl if f["name"] not in given] + [owner.get(k, k) for k, _ in data]):
+        # a field's item covers every key it accepts (aliases: outside the model, oracle only)
         d1 = [dict(f, pos=False) for f in decl if f["name"] == it and it not in given]
-        r = run_decl(api, d1, o, optmode, MODES[0], [(k, v) for k, v in pdata if k == it], (), None, kwty)
+        keys = accepted.get(it, {it})
+        r = run_decl(api, d1, o, optmode, MODES[0], [(k, v) for k, v in pdata if k in keys], (), None, kwty)
         alone.append([it, "ok" not in r])
     out = {"runs": runs, "alone": alone}
     o, decl = o_full, decl_full
@@ -885,6 +891,11 @@ def gen_case(rng, api=None):
         for f in rng.sample(decl, k=rng.choice([1, 1, 2])):
             others = [g["name"] for g in decl if g["name"] != f["name"]]
             f["deps"] = rng.sample(others, k=min(len(others), rng.choice([1, 1, 2])))
+    alias_of = {}
+    if rng.random() < 0.05:
+        f = rng.choice(decl)          # aliases are outside the model: these cases feed the oracle only
+        f["alias_from"] = [f["name"] + "1"]
+        alias_of[f["name"]] = f["name"] + "1"
     data = []
     nbad = rng.choice([0, 0, 1, 1, 2, 2, 3, 4])
     bad = set(rng.sample(range(nf), k=min(nf, nbad)))
@@ -902,6 +913,15 @@ def gen_case(rng, api=None):
     for k in rng.sample(EXTRA, k=nextra):
         v = enc(rng.choice(INTS + STRS)) if addty is None else gen_val(rng, addty, good=rng.random() < 0.5)
         data.insert(rng.randrange(len(data) + 1), [k, v])
+    for name, al in alias_of.items():
+        r = rng.random()
+        for i, (k, v) in enumerate(list(data)):
+            if k == name:
+                if r < 0.6:
+                    data[i] = [al, v]
+                elif r < 0.8:
+                    data.insert(i + 1, [al, v if rng.random() < 0.5 else enc(rng.choice(INTS + STRS))])
+                break
     case = {"kind": "parse", "api": api, "optmode": rng.choice(["runtime", "class"]), "decl": decl, "opts": o, "data": data}
     if kwty is not None:
         case["kwty"] = kwty
@@ -944,6 +964,9 @@ def make_positional(rng, case):
         else:
             break
     args = [data.pop(f["name"]) for f in decl[:given]]
+    for f in decl[:given]:
+        for al in f.get("alias_from") or []:
+            data.pop(al, None)        # a parameter is not given both by position and by (alias) keyword
     if rng.random() < 0.45:
         case["var"] = {"ty": rng.choice([None, {"t": "int"}, {"rule": "int", "cons": {"ge": 0}},
                                          {"rule": "str", "cons": {"max_length": 2}}])}
@@ -1041,7 +1064,8 @@ def global_truth(case, io):
     o, decl = case["opts"], case["decl"]
     n = len(case["data"])
     posnames = [f["name"] for f in decl if f.get("pos")]
-    bykw = {k for k, _ in case["data"]}
+    owner = {k: f["name"] for f in decl for k in [f["name"], *(f.get("alias_from") or [])]}
+    bykw = {owner.get(k, k) for k, _ in case["data"]}
     given = set(posnames[:len(case.get("args") or [])]) | bykw
     failing = set(failing_items(io))
     exceed = bool(o.get("max_params")) and n > o["max_params"]
@@ -1080,6 +1104,7 @@ class C10(Check):
                    "fragment: no aliases/dependencies/no_input/discriminator/max_params/positional-only or excluded (_x) "
                    "parameters; no parameter given both by position and by keyword; constraints gt/ge/lt/le on int "
                    "and length constraints (the validators are abstract in the theorems)"]
+    case_timeout = 90.0      # the cases are cheap; on a loaded box a 10 s per-case kill produced spurious `hang`s
     budget = {"quick": 1800, "thorough": 30000}
     search_budget = {"quick": 2500, "thorough": 25000}
 
